@@ -830,7 +830,7 @@ pub fn run_tree<E: Est, H: Hooks<E>>(
 
     fn restore<E: Est, H: Hooks<E>>(id: usize, acc: E, hooks: &mut H) -> Result<E, Viol> {
         let json = acc.to_json();
-        if crate::framework::has_nonfinite_field(&acc.debug()) {
+        if crate::framework::nonfinite_state(&acc.debug(), &json, acc.stats_vec().into_iter().map(|s| s.1)) {
             // a non-finite field: outside C18's precondition (JSON cannot carry it)
             hooks.restore_skipped(id);
             return Ok(acc);
